@@ -244,7 +244,7 @@ func (w *CountWriter) Write(p []byte) (int, error) {
 // io.ReaderAt, io.WriterTo, *bufio.Reader ...) and take another path.
 
 // ReaderKinds lists the kinds NewReader knows.
-var ReaderKinds = []string{"bytes.Reader", "strings.Reader", "bytes.Buffer", "bufio.Reader", "bufio.Reader(16)", "bare", "bytes.Reader@offset", "onebyte+bytereader"}
+var ReaderKinds = []string{"bytes.Reader", "strings.Reader", "bytes.Buffer", "bufio.Reader", "bufio.Reader(16)", "bare", "bytes.Reader@offset", "onebyte+bytereader", "eof-with-data", "eof-with-data(300)"}
 
 type bare struct{ r io.Reader }
 
@@ -298,6 +298,12 @@ func NewReader(kind string, data []byte) io.Reader {
 		return r
 	case "onebyte+bytereader":
 		return &byteAtATime{data: data}
+	case "eof-with-data":
+		// the whole input in one read, io.EOF in the same call (as
+		// iotest.DataErrReader, compress/flate and others do)
+		return &Chunks{Data: data, WithEOF: true}
+	case "eof-with-data(300)":
+		return &Chunks{Data: data, Sizes: []int{300}, WithEOF: true}
 	}
 	return bytes.NewReader(data)
 }
